@@ -251,13 +251,13 @@ fn proof_case<G: CurveTag>(bytes: &[u8], col: &mut Collector, prefixes: bool) ->
         let mut pairs: Vec<(usize, usize)> = vec![];
         for a in 0..npts {
             for b in (a + 1)..npts {
-                let same_list = (a >= 11 && b >= 11) && ((a < 11 + k) == (b < 11 + k));
-                if same_list || (a + 3 * b + bytes.len()) % 7 == 0 {
+                let both_ipp = a >= 11 && b >= 11;
+                if both_ipp || (a + 3 * b + bytes.len()) % 7 == 0 {
                     pairs.push((a, b));
                 }
             }
         }
-        for (pi, (a, b)) in pairs.iter().enumerate().take(40) {
+        for (pi, (a, b)) in pairs.iter().enumerate().take(60) {
             let t = tors[pi % tors.len()];
             let pa = mirror.clone().point_mut(*a).clone();
             let pb = mirror.clone().point_mut(*b).clone();
